@@ -93,7 +93,8 @@ func (e *Engine) isPureMethod(c *ssa.CallCommon) bool {
 func (e *Engine) isStoreMethod(c *ssa.CallCommon) bool {
 	t := c.Value.Type()
 	switch ifaceMethodKey(c) {
-	case "github.com/janelia-flyem/dvid/storage.VersionedCtx.VersionedKeyValue", "github.com/janelia-flyem/dvid/storage.VersionedCtx.GetBestKeyVersion":
+	case "github.com/janelia-flyem/dvid/storage.VersionedCtx.VersionedKeyValue", "github.com/janelia-flyem/dvid/storage.VersionedCtx.GetBestKeyVersion",
+		"github.com/janelia-flyem/dvid/storage.Filter.Check":
 		// resolver entry points: read-only on the program heap (verified: datastore.VersionedCtx.* declare `modifies nothing`)
 		return true
 	}
@@ -251,7 +252,11 @@ func (e *Engine) verifyFunc(fn *ssa.Function, con *Contract) *VC {
 	vc.topFn = fn
 	if con != nil && con.Flags["safety_off"] {
 		vc.safetyOff = true
-		vc.note("safety_off: panic-freedom of this function and preconditions of its callees are not checked; callee postconditions are not used")
+		vc.note("safety_off: panic-freedom of this function is not checked")
+	}
+	if con != nil && con.Flags["calls_havoc"] {
+		vc.callsHavoc = true
+		vc.note("calls_havoc: preconditions of callees under contract are not checked and their postconditions are not used (only their frames)")
 	}
 	st := &State{pc: "true", cells: map[*Cell]Val{}, heap: map[string]string{}, epoch: "0", ghost: map[string]Val{}, locks: map[string]int{}}
 	st.next = vc.sc.fresh("next0", sortRef)
